@@ -185,8 +185,10 @@ package rules
 
 // C01 at rule level (see iface rule.Rule.Execute). own stages are immutable after construction.
 //@ func (*ruleImpl).Execute
-//@   props C01
+//@   props C01 C08
 //@   requires len(r.sc) > 0
+//@   ensures req.n > old(req.n) && req.arg0[old(req.n)] == ctx
+//@   ensures old(r.slashesHandling) == config2.EncodedSlashesOff && hasEncodedSlash(before(req.ret0[old(req.n)].URL.RawPath)) ==> ret1 != nil && Is(ret1, heimdall.ErrArgument) && ret0 == nil && auth.n == old(auth.n) && step.n == old(step.n)
 //@   ensures ret1 != nil ==> ret0 == nil
 //@   ensures ret1 == nil ==> (spe.n > old(spe.n) && spe.arg0[spe.n-1] == ctx && spe.arg1[spe.n-1] != nil) || (auth.n > old(auth.n) && auth.ret1[auth.n-1] == nil && step.n == old(step.n) + len(r.sh) + len(r.fi) && forall k int :: old(step.n) <= k && k < step.n ==> step.ret0[k] == nil || continueOnError(step.arg0[k]))
 //@   ensures forall k int :: old(step.n) <= k && k < step.n && k - old(step.n) < len(r.sh) ==> step.arg0[k] == r.sh[k - old(step.n)]
@@ -198,3 +200,31 @@ package rules
 //@   ensures find.n == old(find.n) + 1 && find.arg1[old(find.n)] == ctx
 //@   ensures find.ret1[old(find.n)] != nil ==> ret1 == find.ret1[old(find.n)] && ret0 == nil && rex.n == old(rex.n)
 //@   ensures find.ret1[old(find.n)] == nil ==> rex.n == old(rex.n) + 1 && rex.arg0[old(rex.n)] == find.ret0[old(find.n)] && rex.arg1[old(rex.n)] == ctx && ret1 == rex.ret1[old(rex.n)] && ret0 == rex.ret0[old(rex.n)]
+
+// ======================================================================================
+// C08 / C03: encoded slashes and the values handed to matchers and the pipeline.
+// decodeKeepSlashes is written from the property: percent-decoded, except that an encoded slash
+// - in upper- or lower-case hex - stays encoded.
+// ======================================================================================
+
+//@ spec decodeKeepSlashes(v string) string = replaceAll(pathUnescape(replaceAll(replaceAll(v, "%2F", "$$$escaped-slash$$$"), "%2f", "$$$escaped-slash$$$")), "$$$escaped-slash$$$", "%2F")
+//@ spec hasEncodedSlash(p string) bool = contains(p, "%2F") || contains(p, "%2f")
+
+//@ func unescape
+//@   props C08 C03
+//@   modifies nothing
+//@   ensures handling == config2.EncodedSlashesOn ==> ret0 == pathUnescape(value)
+//@   ensures handling != config2.EncodedSlashesOn ==> ret0 == decodeKeepSlashes(value)
+
+//@ iface (typedMatcher).match
+//@   logged tm
+
+// the value compared with a path_params expression is the decoded segment (encoded slashes only
+// as the rule's setting permits); with `off` a path containing an encoded slash never matches.
+//@ func (*pathParamMatcher).Matches
+//@   props C08 C03
+//@   ensures old(m.slashHandling) == config2.EncodedSlashesOff && hasEncodedSlash(old(request.URL.RawPath)) ==> ret0 != nil && tm.n == old(tm.n)
+//@   ensures ret0 == nil ==> tm.n == old(tm.n) + 1 && tm.ret0[old(tm.n)]
+//@   ensures tm.n == old(tm.n) + 1 && old(m.slashHandling) == config2.EncodedSlashesOn && len(old(request.URL.RawPath)) != 0 ==> exists i int :: 0 <= i && i < len(keys) && keys[i] == old(m.name) && tm.arg1[old(tm.n)] == pathUnescape(values[i])
+//@   ensures tm.n == old(tm.n) + 1 && old(m.slashHandling) == config2.EncodedSlashesOnNoDecode && len(old(request.URL.RawPath)) != 0 ==> exists i int :: 0 <= i && i < len(keys) && keys[i] == old(m.name) && tm.arg1[old(tm.n)] == decodeKeepSlashes(values[i])
+//@   ensures tm.n == old(tm.n) + 1 && old(m.slashHandling) == config2.EncodedSlashesOff && len(old(request.URL.RawPath)) != 0 ==> exists i int :: 0 <= i && i < len(keys) && keys[i] == old(m.name) && tm.arg1[old(tm.n)] == pathUnescape(values[i])
